@@ -1,6 +1,6 @@
 (* C09 - A truncated result stream decodes to a clean prefix. *)
 From Coq Require Import ZArith List Bool Arith.
-From V Require Import Model.ResultCodec Proofs.FramingProofs Model.Json Proofs.JsonProofs Base.Base64.
+From V Require Import Model.Csv Model.ResultCodec Proofs.FramingProofs Model.Json Proofs.JsonProofs Proofs.ResultCodecProofs Proofs.MimeProofs Proofs.CutProofs Base.Base64.
 Import ListNotations.
 Open Scope Z_scope.
 
@@ -37,6 +37,26 @@ Proof.
   unfold json_line. apply no10_cons; [discriminate|]. apply members_no10; [exact D | apply no10_cons; [discriminate | intros []]].
 Qed.
 Print Assumptions json_no_raw_newline.
+
+(* End to end on the codec models.  JSON: a stream of results (any results in the domain of the JSON
+   codec) cut at ANY byte offset k decodes to exactly the results whose lines were written completely
+   within the first k bytes - j of them, the (j+1)-th line being incomplete - and to nothing else. *)
+Theorem json_cut_decodes_written : forall rs, Forall jres_dom rs -> forall k,
+  exists j rs', (j <= length rs)%nat /\
+    (length (flat_map json_encode (firstn j rs)) <= k)%nat /\
+    (j < length rs -> k < length (flat_map json_encode (firstn (S j) rs)))%nat /\
+    json_decode_all (firstn k (flat_map json_encode rs)) = Some rs' /\
+    Forall2 (fun a b => cres_equal a b = true) (firstn j rs) rs'.
+Proof. exact json_cut_decodes_written_lemma. Qed.
+Print Assumptions json_cut_decodes_written.
+
+(* CSV: a cut at a record boundary leaves the encoding of the first j records, which decodes to them *)
+Theorem csv_cut_at_boundary : forall rs j,
+  Forall cres_dom rs -> Forall (fun r => headers_dom (c_headers r)) rs -> Forall texts_ok rs ->
+  exists rs', csv_decode_all (firstn (length (flat_map csv_encode (firstn j rs))) (flat_map csv_encode rs)) = Some rs' /\
+              Forall2 (fun a b => cres_equal a b = true) (firstn j rs) rs'.
+Proof. exact csv_cut_at_boundary_lemma. Qed.
+Print Assumptions csv_cut_at_boundary.
 
 Example frames_cut_nontrivial :
   read_frames 5 (concat (map frame [[1; 2; 3]; [4]]) ++ firstn 2 (frame [9; 9; 9])) = ([[1; 2; 3]; [4]], true).
